@@ -38,6 +38,56 @@ fn word(c: &AtomicRefCell<u64>, idx: usize) -> usize {
     unsafe { std::ptr::read_volatile((c as *const _ as *const usize).add(idx)) }
 }
 
+/// the harness's own reckoning (no model): a shared attempt is granted iff no exclusive guard is
+/// alive, an exclusive one iff no guard at all is alive
+fn impl_case(lines: &[String]) -> Option<String> {
+    let cell = AtomicRefCell::new(FILL);
+    let mut shared: Vec<AtomicRef<u64>> = vec![];
+    let mut excl: Option<AtomicRefMut<u64>> = None;
+    for (k, op) in lines.iter().enumerate() {
+        match op.as_str() {
+            "try-shared" => {
+                let want = excl.is_none();
+                let got = match cell.try_borrow() {
+                    Ok(g) => {
+                        shared.push(g);
+                        true
+                    }
+                    Err(_) => false,
+                };
+                if got != want {
+                    return Some(format!("step {}: try_borrow was {} while {} shared and {} exclusive guard(s) are alive", k, if got { "granted" } else { "refused" }, shared.len() - got as usize, excl.is_some() as usize));
+                }
+            }
+            "try-excl" => {
+                let want = excl.is_none() && shared.is_empty();
+                let got = match cell.try_borrow_mut() {
+                    Ok(g) => {
+                        if want {
+                            excl = Some(g);
+                        } else {
+                            std::mem::forget(g);
+                        }
+                        true
+                    }
+                    Err(_) => false,
+                };
+                if got != want {
+                    return Some(format!("step {}: try_borrow_mut was {} while {} shared and {} exclusive guard(s) are alive", k, if got { "granted" } else { "refused" }, shared.len(), excl.is_some() as usize));
+                }
+            }
+            "drop-shared" => {
+                shared.pop();
+            }
+            "drop-excl" => {
+                excl.take();
+            }
+            _ => {}
+        }
+    }
+    None
+}
+
 fn run_case(lines: &[String], drv: &mut Drv, idx: usize) -> Option<String> {
     let cell = AtomicRefCell::new(FILL);
     let mut shared: Vec<AtomicRef<u64>> = vec![];
@@ -114,6 +164,9 @@ fn gen_case(rng: &mut Rng, len: usize) -> Vec<String> {
     v
 }
 
+#[cfg(not(feature = "parallel"))]
+fn stress(_seed: u64, _threads: usize, _ops: u64, _idx: usize, _rep: &mut Report) {}
+#[cfg(feature = "parallel")]
 fn stress(seed: u64, threads: usize, ops: u64, idx: usize, rep: &mut Report) {
     let cell = Arc::new(AtomicRefCell::new(FILL));
     let readers = Arc::new(AtomicI64::new(0));
@@ -187,9 +240,9 @@ pub fn run(args: &Args, rep: &mut Report) {
             usize::MAX
         }
     };
-    if idx == usize::MAX {
+    let word_found = idx != usize::MAX;
+    if !word_found {
         rep.violate("MODEL:cellword", "model", "", "the borrow word of AtomicRefCell could not be located by experiment (layout of the dependency changed?)".into(), vec![]);
-        return;
     }
     let mut todo: Vec<(String, Vec<String>)> = vec![];
     if let Some(f) = args.get("replay") {
@@ -219,6 +272,7 @@ pub fn run(args: &Args, rep: &mut Report) {
         }
     }
     let mut reported = false;
+    let mut reported_impl = false;
     for (label, lines) in todo {
         let refused = {
             // a refused attempt: try-shared while exclusive, try-excl while anything is held
@@ -249,6 +303,23 @@ pub fn run(args: &Args, rep: &mut Report) {
         rep.case(&lines.join(" "), refused);
         rep.add("steps", lines.len() as u64);
         rep.traces_validated += 1;
+        if let Some(what) = impl_case(&lines) {
+            if !reported_impl {
+                reported_impl = true;
+                let mut small = lines.clone();
+                for n in 1..=lines.len() {
+                    if impl_case(&lines[..n].to_vec()).is_some() {
+                        small = lines[..n].to_vec();
+                        break;
+                    }
+                }
+                rep.violate("C08", "impl", "", format!("one AtomicRefCell, one thread: {} [{}]", what, label), small);
+            }
+            continue;
+        }
+        if !word_found {
+            continue;
+        }
         if let Some(what) = run_case(&lines, &mut drv, idx) {
             if !reported {
                 reported = true;
@@ -269,7 +340,7 @@ pub fn run(args: &Args, rep: &mut Report) {
         rep.sample(Json::obj(vec![("sequence", Json::Arr(gen_case(&mut rng, 12).into_iter().map(Json::s).collect()))]));
     }
     let rounds = args.num("stress-rounds", 2);
-    for r in 0..rounds {
+    for r in 0..(if word_found { rounds } else { 0 }) {
         stress(seed + r, 4 + 4 * (r as usize % 2), args.num("stress-ops", 100_000), idx, rep);
     }
     rep.add("driver_requests", drv.requests);
